@@ -31,10 +31,11 @@ def tlc_run(tier, res_index):
     mod = c.pop("EmitMod")
     consts = dict(c, EmitCases=True, EmitMod=mod, EmitRes=res_index % mod)
     cfg = tlc.make_cfg(consts, invariants=INVARIANTS)
-    res = tlc.run("MC_HFModel", cfg, workers=16, timeout=7200, coverage=tier.startswith("thorough"),
-                  jvm_opts=("-Xmx26g",) if tier.startswith("thorough") else ())
-    if tier.startswith("thorough"):
-        tlc.require_actions(res, ["AddMod", "Build", "Eval"], "MC_HFModel")
+    # no -coverage here: TLC's coverage instrumentation of this specification (deeply nested LET/recursive definitions) does not
+    # get past start-up within the heap at MaxPlace = 3; the vacuity guard is the depth of the search and the printed Eval states
+    res = tlc.run("MC_HFModel", cfg, workers=16, timeout=7200, jvm_opts=("-Xmx24g",) if tier.startswith("thorough") else ())
+    if res.ok and (res.depth < 4 or not res.ncases):
+        raise Machinery(f"MC_HFModel: vacuous run (depth {res.depth}, {res.ncases} evaluated states printed)")
     return res
 
 
